@@ -242,6 +242,22 @@ func runOverlap(t *testing.T, scenario string) string {
 			if len(left) != 0 {
 				problems = append(problems, fmt.Sprintf("orphan-after-invalidation: %d keys left in the store after the unsafe request: %q", len(left), left))
 			}
+		case "invalidated":
+			// an unsafe request invalidates the entry while its validation is in flight: the background work ends there; it
+			// does not go back to the origin
+			r3 := do("POST", "", "")
+			close(org.release)
+			settle()
+			ngets := countCalls(func(c string) bool { return strings.HasPrefix(c, "GET") })
+			nval := countCalls(func(c string) bool { return strings.HasPrefix(c, "GET") && !strings.HasSuffix(c, "inm=") })
+			left := tc.keys()
+			detail = fmt.Sprintf("first=%s stale=%s post=%s origin_gets=%d validations=%d keys_left=%d", r1.status, r2.status, r3.status, ngets, nval, len(left))
+			if ngets != 2 || nval != 1 {
+				problems = append(problems, fmt.Sprintf("revalidation-count: %d GET requests reached the origin, %d of them conditional (the first fetch and exactly one revalidation expected)", ngets, nval))
+			}
+			if len(left) != 0 {
+				problems = append(problems, fmt.Sprintf("orphan-after-invalidation: %d keys left in the store after the unsafe request and the end of the background work: %q", len(left), left))
+			}
 		case "second-variant-stale":
 			// another variant, also stale inside its window, is requested while the first validation is in flight: it is
 			// answered at once and gets its own validation request
@@ -276,7 +292,7 @@ func TestOverlap(t *testing.T) {
 		t.Skip("VERIF_OUT not set")
 	}
 	var lines []string
-	for _, sc := range []string{"replace", "second-variant-stored", "second-variant-invalidated", "second-variant-stale"} {
+	for _, sc := range []string{"replace", "second-variant-stored", "second-variant-invalidated", "second-variant-stale", "invalidated"} {
 		lines = append(lines, runOverlap(t, sc))
 	}
 	if err := writeLines(filepath.Join(out, "overlap.txt"), lines); err != nil {
